@@ -7,7 +7,8 @@
    strictly increasing in the handle: chronological, nothing twice. *)
 From Coq Require Import Sorting.Sorted ZArith.
 From Stam Require Import Base.Tac Model.Offset Model.Store Model.StoreObs Spec.StoreSpec
-     Proofs.StoreScan Proofs.StoreInv Proofs.StoreDataDef Proofs.StoreRemove Proofs.StoreData Proofs.StoreStable.
+     Proofs.StoreScan Proofs.StoreInv Proofs.StoreDataDef Proofs.StoreRemove Proofs.StoreData Proofs.StoreStable
+     Model.Compress Proofs.Compress Proofs.StoreSel.
 
 (* every reverse index of every reachable store is exact *)
 Theorem C01_index_invariant : forall ops, Inv (run ops).
@@ -57,6 +58,45 @@ Theorem C01_targets_never_change : forall ops ops' h a',
   h < length (anns (run ops)) -> get_ann (run (ops ++ ops')) h = Some a' ->
   exists a, get_ann (run ops) h = Some a /\ same_ann a a'.
 Proof. exact targets_never_change. Qed.
+
+(* Complex selectors are stored range-compressed (consecutive text selections of one resource,
+   consecutive annotations with or without text become one internal ranged selector) and every
+   reader expands them again.  [compress] is the loop of subselectors(), [expand] the iteration
+   of SelectorIter.  Nothing is lost, whatever order the subselectors were sorted into: *)
+Theorem C01_compression_lossless : forall wh own l, Forall (Pown wh own) l -> expand own (compress wh l) = l.
+Proof. exact expand_compress. Qed.
+
+(* text selections are interned: one handle per range and resource in every reachable store *)
+Theorem C01_text_selections_interned : forall ops r rs, get_res (run ops) r = Some rs -> NoDup (r_sels rs).
+Proof. exact reachable_SelInv. Qed.
+
+(* asking an annotation for its targets returns exactly what it was built with: the target
+   resolved in the store [run ops] (giving the intermediate store s1 in which the compression
+   decides what "covers the whole target" means), stored compressed, and read in the store after
+   any continuation [ops'] of the history in which the annotation still exists *)
+Theorem C01_compressed_target_roundtrip : forall ops b ops' tb s1 k l h a',
+  ab_target b = Some tb -> resolve_target (run ops) tb = (s1, Some (k, l)) ->
+  snd (annotate (run ops) b) = OOk h -> h = length (anns (run ops)) ->
+  let s_now := run (ops ++ Annotate b :: ops') in
+  get_ann s_now h = Some a' ->
+  a_kind a' = k /\ a_leaves a' = l /\ seen s1 s_now l = l.
+Proof. exact compressed_target_roundtrip. Qed.
+
+(* non-vacuity of the round trip: three annotations on adjacent text, a MultiSelector over the
+   three with offsets covering each entirely is stored as ONE ranged selector with text, and is
+   read back as the three selectors after the first target's own annotation ... is still there *)
+Example C01_roundtrip_nonvacuous :
+  let ops := [AddRes 0 8;
+              Annotate (mkab None (Some (BText (ById 0) (mkoff (CB 0) (CB 2)))) []);
+              Annotate (mkab None (Some (BText (ById 0) (mkoff (CB 2) (CB 4)))) []);
+              Annotate (mkab None (Some (BText (ById 0) (mkoff (CB 4) (CB 6)))) [])] in
+  let whole_off := mkoff (CB 0) (CE 0) in
+  let tb := BComplex 1 [BAnn (ByHandle 0) (Some whole_off); BAnn (ByHandle 1) (Some whole_off); BAnn (ByHandle 2) (Some whole_off)] in
+  let '(s1, r) := resolve_target (run ops) tb in
+  r = Some (1, [LAnnText 0 0 0 1; LAnnText 1 0 1 1; LAnnText 2 0 2 1])
+  /\ compress (whole s1) [LAnnText 0 0 0 1; LAnnText 1 0 1 1; LAnnText 2 0 2 1] = [CRAnn 0 2 true]
+  /\ snd (annotate (run ops) (mkab None (Some tb) [])) = OOk 3.
+Proof. vm_compute. repeat split; reflexivity. Qed.
 
 (* non-vacuity: a history with text, annotation-on-annotation with offset, a complex selector
    reaching one text selection twice, metadata on data, and two removals *)
